@@ -11,7 +11,7 @@
    G <ref> <nx> {<num> <F|S<s>|D<sobj>>} <nm> {<num> <sobj>}   object stream get (ObjStmGet.get_in)
    J <N> <First> <number> <len> <k> {<int> <endpos>} <m> {<okoffset>}   object stream index (ObjStmIndex.objstm_find)
    D <start> <n> {<ref> <n|r<t>|e|m|k[:<kid>]*>}          typed decode through references (DecodePath.decode_in)
-   N <tokens: a n [ ] < >>                               object nesting (Nest.read_object)
+   N <tokens: a i R n [ ] < >>                               object nesting (Nest.read_object)
      sobj: v | r<n> | s<id>[:<dep>]* ; a member may also be m<len>: stream-shaped with /Length len 0 R *)
 open Wire
 open Datatypes
@@ -264,13 +264,20 @@ let run id kind fs =
      | DecodePath.DFuel -> Printf.printf "%s fuel\n" id)
   | "N", ts :: _ ->
     let ts = if ts = "-" then "" else ts in
+    (* a leading ! : only "does not panic" is compared (the array sits in a
+       trailer or cross-reference stream dictionary) *)
+    let only_panic = Stdlib.String.length ts > 0 && ts.[0] = '!' in
+    let ts = if only_panic then tail1 ts else ts in
     let toks = Stdlib.List.init (Stdlib.String.length ts) (fun i ->
       match ts.[i] with
-      | 'a' -> Nest.TA | 'n' -> Nest.TN | '[' -> Nest.TAO | ']' -> Nest.TAC
+      | 'a' -> Nest.TA | 'n' -> Nest.TN | 'i' -> Nest.TI | 'R' -> Nest.TR
+      | '[' -> Nest.TAO | ']' -> Nest.TAC
       | '<' -> Nest.TDO | '>' -> Nest.TDC | _ -> failwith "bad token") in
-    (match Nest.read_object toks with
-     | Res.Ok ([], _) -> Printf.printf "%s ok\n" id
-     | Res.Ok (_, _) -> Printf.printf "%s mal\n" id      (* endobj expected *)
+    (match Nest.read_indirect true toks with
+     | Res.Err Res.Panic -> Printf.printf "%s panic\n" id
+     | _ when only_panic -> Printf.printf "%s nopanic\n" id
+     | Res.Ok true -> Printf.printf "%s ok\n" id
+     | Res.Ok false -> Printf.printf "%s mal\n" id      (* endobj expected *)
      | Res.Err c -> Printf.printf "%s %s\n" id (cls_str c))
   | _ -> Printf.printf "%s badcase\n" id
 
